@@ -16,6 +16,7 @@
      cap      designed capacity of the first bloom filter (0 for exact trackers = never grows)
      roots    the walks to run one after the other, all sharing the tracker
      stop     k > 0 : the k-th emit callback of every walk returns false; 0 : never
+     cached   the fetcher hands out its own (memoised) link slice: the same backing array on every call
 
    walkLoop is single-threaded; one action per callback it makes:
      Pop (take the top of the stack), Visit (tracker.Visit), Local (locality check), Fetch (links
@@ -26,16 +27,23 @@
    positives.  In tracker-driver configurations (roots = <<>>) the tracker is called directly
    (TVisit / THas / TBulk).
 
+   The module describes the IDEAL behaviour.  One recorded as-built defect is a guarded alternative
+   (Devs, ab): walkLoop reverses the slice the fetcher returned IN PLACE, so a fetcher that memoises
+   its result sees its slice flipped on every fetch and every second visit of a node walks its children
+   right-to-left (DF).
+
    The property is stated against an independent reference: Rec, the textbook recursive pre-order
    DFS with mark-on-entry (theorem-as-invariant StackIsRecursive).                              *)
 EXTENDS Integers, Sequences, FiniteSets, TLC, Json
 
-CONSTANTS Cases,     \* configurations Init may choose from
+CONSTANTS Devs,      \* enabled deviations; {} = ideal behaviour only
+          Cases,     \* configurations Init may choose from
           GF,        \* BloomGrowthFactor
           FPKeys     \* tracker-driver model checking: keys that may become false positives
 
-VARIABLES cfg, wi, stack, pc, cur, chain, total, dedup, asked, fp, emitted, left, exp, done
-vars == <<cfg, wi, stack, pc, cur, chain, total, dedup, asked, fp, emitted, left, exp, done>>
+DF == "Dev_C13_FetcherSliceReversed"
+VARIABLES cfg, wi, stack, pc, cur, chain, total, dedup, asked, fp, emitted, left, exp, done, ab, flip, dev
+vars == <<cfg, wi, stack, pc, cur, chain, total, dedup, asked, fp, emitted, left, exp, done, ab, flip, dev>>
 \* wi      index of the current walk in cfg.roots
 \* stack   the explicit DFS stack (top = last element)
 \* cur     the CID popped in this iteration
@@ -47,6 +55,9 @@ vars == <<cfg, wi, stack, pc, cur, chain, total, dedup, asked, fp, emitted, left
 \* emitted sequence of [w |-> walk, c |-> node] in emission order
 \* left    emit calls left before the callback returns false (-1 = unlimited)
 \* exp     reference result for the current walk, computed when it starts
+\* ab      this run shows the as-built behaviour DF (chosen once per configuration; FALSE unless DF \in Devs)
+\* flip    (as built) nodes whose memoised link slice is currently reversed
+\* dev     deviations that made an observable difference so far
 
 Nodes == 1..cfg.n
 ToSet(s) == {s[i] : i \in 1..Len(s)}
@@ -106,6 +117,7 @@ InitWith(c) ==
   /\ LET s == StartWalk(c, 1, NewChain(c)) IN
      wi = s.wi /\ stack = s.stack /\ pc = s.pc /\ left = s.left /\ done = s.done
   /\ exp = IF c.roots = <<>> THEN NoExp ELSE Expected(c, c.roots[1], NewChain(c))
+  /\ flip = {} /\ dev = {} /\ ab \in (IF DF \in Devs /\ c.cached THEN BOOLEAN ELSE {FALSE})
 Init == \E c \in Cases : InitWith(c)
 \* the same as an action (a trace holds several configurations)
 StartWith(c) ==
@@ -113,12 +125,13 @@ StartWith(c) ==
   /\ LET s == StartWalk(c, 1, NewChain(c)) IN
      wi' = s.wi /\ stack' = s.stack /\ pc' = s.pc /\ left' = s.left /\ done' = s.done
   /\ exp' = IF c.roots = <<>> THEN NoExp ELSE Expected(c, c.roots[1], NewChain(c))
+  /\ flip' = {} /\ dev' = {} /\ ab' \in (IF DF \in Devs /\ c.cached THEN BOOLEAN ELSE {FALSE})
 
 (* ---------------- walkLoop --------------------------------------------------------------------- *)
 Pop == /\ pc = "pop" /\ stack # <<>>
        /\ cur' = stack[Len(stack)] /\ stack' = SubSeq(stack, 1, Len(stack) - 1)
        /\ pc' = IF cfg.trk = "none" THEN "local" ELSE "visit"
-       /\ UNCHANGED <<cfg, wi, chain, total, dedup, asked, fp, emitted, left, exp, done>>
+       /\ UNCHANGED <<cfg, wi, chain, total, dedup, asked, fp, emitted, left, exp, done, ab, flip, dev>>
 
 \* tracker.Visit(k) = ret; a Bloom filter may answer "seen" for a key it never saw (fp)
 VisitKey(k, ret) ==
@@ -133,17 +146,25 @@ VisitKey(k, ret) ==
 Visit(ret) == /\ pc = "visit"
               /\ VisitKey(KeyOf(cur), ret)
               /\ pc' = IF ret THEN "local" ELSE "pop"
-              /\ UNCHANGED <<cfg, wi, stack, cur, emitted, left, exp, done>>
+              /\ UNCHANGED <<cfg, wi, stack, cur, emitted, left, exp, done, ab, flip, dev>>
 
 Local == /\ pc = "local"
          /\ pc' = IF cfg.locality /\ ~cfg.loc[cur] THEN "pop" ELSE "fetch"
-         /\ UNCHANGED <<cfg, wi, stack, cur, chain, total, dedup, asked, fp, emitted, left, exp, done>>
+         /\ UNCHANGED <<cfg, wi, stack, cur, chain, total, dedup, asked, fp, emitted, left, exp, done, ab, flip, dev>>
 
+\* ideal: the children are pushed last-to-first so that the first link is popped next; the fetcher's slice
+\* is left alone.  As built (ab): the fetcher's slice is reversed in place and pushed, so what is pushed is
+\* the reverse of whatever the memoised slice holds at the moment.
 Fetch == /\ pc = "fetch"
-         /\ IF cfg.fok[cur]
-            THEN stack' = stack \o Reverse(Children(cur)) /\ pc' = "emit"      \* first link on top of the stack
-            ELSE pc' = "pop" /\ UNCHANGED stack
-         /\ UNCHANGED <<cfg, wi, cur, chain, total, dedup, asked, fp, emitted, left, exp, done>>
+         /\ IF ~cfg.fok[cur] THEN pc' = "pop" /\ UNCHANGED <<stack, flip, dev>>
+            ELSE /\ pc' = "emit"
+                 /\ IF ab /\ Children(cur) # <<>>
+                    THEN LET held == IF cur \in flip THEN Reverse(cfg.links[cur]) ELSE cfg.links[cur] IN
+                         /\ stack' = stack \o Reverse(held)
+                         /\ flip' = IF cur \in flip THEN flip \ {cur} ELSE flip \cup {cur}
+                         /\ dev' = IF Reverse(held) # Reverse(Children(cur)) THEN dev \cup {DF} ELSE dev
+                    ELSE stack' = stack \o Reverse(Children(cur)) /\ UNCHANGED <<flip, dev>>
+         /\ UNCHANGED <<cfg, wi, cur, chain, total, dedup, asked, fp, emitted, left, exp, done, ab>>
 
 Emit == /\ pc = "emit"
         /\ IF cfg.ident[cur]
@@ -151,28 +172,28 @@ Emit == /\ pc = "emit"
            ELSE /\ emitted' = Append(emitted, [w |-> wi, c |-> cur])
                 /\ left' = IF left > 0 THEN left - 1 ELSE left
                 /\ pc' = IF left = 1 THEN "end" ELSE "pop"                       \* emit returned false
-        /\ UNCHANGED <<cfg, wi, stack, cur, chain, total, dedup, asked, fp, exp, done>>
+        /\ UNCHANGED <<cfg, wi, stack, cur, chain, total, dedup, asked, fp, exp, done, ab, flip, dev>>
 
 EndWalk == /\ (pc = "pop" /\ stack = <<>>) \/ pc = "end"
            /\ LET s == StartWalk(cfg, wi + 1, chain) IN
               /\ wi' = s.wi /\ stack' = s.stack /\ pc' = s.pc /\ left' = s.left /\ done' = s.done
               /\ exp' = IF s.done THEN exp ELSE Expected(cfg, cfg.roots[wi + 1], chain)
-           /\ UNCHANGED <<cfg, cur, chain, total, dedup, asked, fp, emitted>>
+           /\ UNCHANGED <<cfg, cur, chain, total, dedup, asked, fp, emitted, ab, flip, dev>>
 
 (* ---------------- tracker driven directly (roots = <<>>) ------------------------------------------ *)
 TVisit(k, ret) == /\ pc = "idle" /\ VisitKey(k, ret)
-                  /\ UNCHANGED <<cfg, wi, stack, pc, cur, emitted, left, exp, done>>
+                  /\ UNCHANGED <<cfg, wi, stack, pc, cur, emitted, left, exp, done, ab, flip, dev>>
 THas(k, ret) == /\ pc = "idle"
                 /\ IF Has(chain, k) THEN ret = TRUE /\ UNCHANGED <<chain, fp>>
                    ELSE \/ ret = FALSE /\ UNCHANGED <<chain, fp>>
                         \/ ret = TRUE /\ cfg.trk = "bloom" /\ fp' = TRUE
                            /\ chain' = [chain EXCEPT ![Len(chain)].pos = @ \cup {k}]
-                /\ UNCHANGED <<cfg, wi, stack, pc, cur, total, dedup, asked, emitted, left, exp, done>>
+                /\ UNCHANGED <<cfg, wi, stack, pc, cur, total, dedup, asked, emitted, left, exp, done, ab, flip, dev>>
 \* n Visit calls on keys never used before or after, nt of which returned true
 TBulk(n, nt) == /\ pc = "idle" /\ nt <= n /\ (cfg.trk # "bloom" => nt = n)
                 /\ chain' = InsertAnon(chain, nt) /\ total' = total + nt /\ dedup' = dedup + (n - nt)
                 /\ fp' = (fp \/ nt < n)
-                /\ UNCHANGED <<cfg, wi, stack, pc, cur, asked, emitted, left, exp, done>>
+                /\ UNCHANGED <<cfg, wi, stack, pc, cur, asked, emitted, left, exp, done, ab, flip, dev>>
 
 Terminated == done /\ cfg.roots # <<>> /\ UNCHANGED vars
 Next == Pop \/ (\E r \in BOOLEAN : Visit(r)) \/ Local \/ Fetch \/ Emit \/ EndWalk \/ Terminated
@@ -188,7 +209,7 @@ WalkOver == (pc = "pop" /\ stack = <<>>) \/ pc = "end"
 \* theorem-as-invariant: the explicit-stack loop computes exactly the recursive pre-order DFS --
 \* same emission sequence (each reachable, available, non-identity CID once, children in link order)
 \* and same marked set -- for every walk, including walks that start from a tracker other walks filled
-StackIsRecursive == (WalkOver /\ ~fp) => EmittedOf(wi) = exp.out /\ (cfg.trk # "none" => Seen(chain) = exp.seen)
+StackIsRecursive == (WalkOver /\ ~fp /\ DF \notin dev) => EmittedOf(wi) = exp.out /\ (cfg.trk # "none" => Seen(chain) = exp.seen)
 \* nothing that fails the locality check, nothing inline, and (exact tracker) nothing twice
 EmitSafe == \A j \in 1..Len(emitted) :
                /\ ~cfg.ident[emitted[j].c]
